@@ -58,7 +58,7 @@ func c05Gen(rt *rapid.T) c05Case {
 			}
 		}
 	}
-	kinds := []string{"sub", "sub", "cancel", "relay", "unrelay", "unrelay2", "close", "connect", "disconnect", "reset", "reset", "wait", "quiet", "skelsub", "publish"}
+	kinds := []string{"sub", "sub", "cancel", "relay", "unrelay", "unrelay2", "close", "connect", "disconnect", "reset", "reset", "wait", "quiet", "skelsub", "publish", "flap"}
 	n := rapid.IntRange(1, 24).Draw(rt, "nops")
 	// most histories concentrate on one node and one topic, so that reference counts go up and down repeatedly;
 	// the generator tracks what is live so that cancellations hit live subscriptions and relays
@@ -400,6 +400,21 @@ func c05RunInBubble(t *testing.T, c c05Case, res *vfResult) {
 				res.label("disconnect")
 				// let both sides notice before anything else happens to this pair
 				s.wait(200 * time.Millisecond)
+			}
+		case "flap":
+			// the connection between two real nodes goes down and comes back 1-7 times in a row
+			if op.A != op.B && op.B < N && edge[norm(op.A, op.B)] {
+				for k := 0; k <= op.I*2; k++ {
+					s.disconnect(op.A, op.B)
+					s.wait(400 * time.Millisecond)
+					if err := s.connect(op.A, op.B); err != nil {
+						res.Inconclusive = fmt.Sprintf("connect %d-%d: %v", op.A, op.B, err)
+						break
+					}
+					s.wait(600 * time.Millisecond)
+				}
+				res.label("link-flapped")
+				res.NT = true
 			}
 		case "reset":
 			// reset node A's outbound pubsub stream to B, the connection stays up
